@@ -780,10 +780,16 @@ benign('B-helper-extracted-status-setter', ['C02', 'C05'], [
 # extraction, match <-> combinator, early returns, renames, reordered pure statements, added tracing).
 # Every property must stay silent on them, and defects seeded ON TOP of them must still be reported.
 ALLP = ['C%02d' % i for i in range(1, 18)]
-for _r in ('R1', 'R2', 'R3', 'R4', 'R5', 'R6', 'S1', 'S2', 'S3', 'S4', 'S5', 'S6', 'T3'):
+for _r in ('R1', 'R2', 'R3', 'R4', 'R5', 'R6', 'S1', 'S2', 'S3', 'S4', 'S5', 'S6', 'T3', 'T1'):
     benign(f'B-refactor-{_r}', ALLP, [], patch=f'sa/benign/{_r}.diff')
 
 IDB = 'src/incarnation_db.rs'
+mutant_on('sa/benign/T1.diff', 'T1+storage-read-with-vanished-writer-accepted', ['C01'], [
+    (S, "                } else if *version != ReadVersion::Storage {\n                    verdict.conflict = true;\n                }\n            } else if", "                }\n            } else if"),
+], ['|V1|'])
+mutant_on('sa/benign/T1.diff', 'T1+beneficiary-invalid-not-a-conflict', ['C07'], [
+    (S, "                if !validation.is_valid() {\n                    verdict.conflict = true;\n                }\n", "                let _ = validation.is_valid();\n"),
+], ['|V1|'])
 mutant_on('sa/benign/R3.diff', 'R3+storage-gt-instead-of-ge', ['C08'], [
     (IDB, "(Some((slot_txid, value)), Some(reset_txid)) if slot_txid >= reset_txid => Ok(value),", "(Some((slot_txid, value)), Some(reset_txid)) if slot_txid > reset_txid => Ok(value),"),
 ], ['|D3|'])
